@@ -42,6 +42,15 @@ where
       let sctl = StreamController::new(s);
       let timer = Arc::new(RwLock::new(None::<Subscription<'a>>));
       let scheduler_ctor = scheduler_ctor.clone();
+      {
+        // the armed timer must not outlive the subscription
+        let timer = Arc::clone(&timer);
+        sctl.set_on_finalize(move || {
+          if let Some(timer) = &*timer.read().unwrap() {
+            timer.unsubscribe();
+          }
+        });
+      }
 
       let sctl_next = sctl.clone();
       let sctl_error = sctl.clone();
